@@ -67,6 +67,12 @@ class DrvHooks(fdi.Inliner):
             t = rel[1]
             if t[0] == "path" and fields(t) and fields(t)[-1].endswith("::verbose"):
                 return False if rel[0] == "truth" else True
+            # ps.cursor_stack.empty()
+            if t[0] == "call" and (t[1] or "").endswith("::empty") and t[2] and t[2][0][0] == "path":
+                fl = fields(t[2][0])
+                if fl and fl[-1] == PS + "cursor_stack":
+                    e = self.case["empty"]
+                    return e if rel[0] == "truth" else not e
             return None
         a, b = rel[2], rel[3]
         # ps.cursor_stack.size() == 0  /  ps.value_stack.size() != 0
